@@ -21,8 +21,9 @@
     attribute list for it; pass 3 (callback autodetection) afterwards may overwrite
     scope/closure/destroy/transfer/nullable of callback and user-data parameters
     (`C01_closure_overridden_counterexample`, `C01_destroy_overridden_counterexample`,
-    `C01_scope_overridden_counterexample`); and the annotation step of ANOTHER parameter carrying
-    `(destroy p)` sets the scope of `p` (`C01_scope_overridden_by_destroy_reference_counterexample`).
+    `C01_scope_overridden_counterexample`).  The first step of pass 3 drops every (closure)/(destroy)
+    reference that has no index in `parameters` (`C01_references_have_index`), so the writer's
+    `get_parameter_index` cannot fail on them.
 -/
 import GIVerif.Lemmas.ParamAnn
 import GIVerif.Spec.ParamAnn
@@ -34,21 +35,25 @@ open GIVerif.Py
     for (re-extracted from /repo on every run). -/
 theorem C01_tables_shape :
     Gen.ParamAnn.transformerLiterals =
-      [("_apply_annotations_array", ["*", "0", "1"]), ("_apply_annotations_element_type", []),
-       ("_apply_annotations_param_callback", ["in:SCOPE_OPTIONS"]), ("_apply_annotations_param_closure", []),
-       ("_apply_annotations_param_ret_common", ["**", "Gio.AsyncReadyCallback", "Gio.Cancellable"]),
-       ("_apply_transfer_annotation", ["GLib.Variant", "GObject.Closure", "in:TRANSFER_OPTIONS"]), ("_check_array_element_type", ["in:BASIC_GIR_TYPES", "in:POINTER_TYPES"]),
-       ("_check_instance_parameter", ["destroy", "free"]), ("_get_transfer_default_param", []),
-       ("_is_pointer_type", ["*", "in:BASIC_TYPES"]),
-       ("_pass3_callable_callbacks", ["GLib.DestroyNotify", "Gio.AsyncReadyCallback", "attr:Gio.AsyncReadyCallback", "data"]),
-       ("_pass3_callable_throws", ["GError**"])]
+      [("_apply_annotations_array", ["*", "0", "1", "has:OPT_ARRAY_ZERO_TERMINATED", "isa:Array", "isa:Compound", "none:ctype"]),
+       ("_apply_annotations_element_type", ["isa:Array", "isa:List", "isa:Map"]),
+       ("_apply_annotations_param_callback", ["in:SCOPE_OPTIONS", "isa:Callback", "isa:Type", "none:destroy_name", "none:scope"]),
+       ("_apply_annotations_param_closure", ["has:ANN_CLOSURE", "isa:Type"]),
+       ("_apply_annotations_param_ret_common", ["**", "Gio.AsyncReadyCallback", "Gio.Cancellable", "has:ANN_ALLOW_NONE", "has:ANN_IN", "has:ANN_INOUT", "has:ANN_NULLABLE", "has:ANN_OPTIONAL", "has:ANN_OUT", "has:ANN_SKIP", "has:OPT_NOT_OPTIONAL", "isa:Record", "isa:Return", "isa:Union"]),
+       ("_apply_transfer_annotation", ["GLib.Variant", "GObject.Closure", "has:ANN_ARRAY", "in:TRANSFER_OPTIONS", "isa:Array", "isa:Boxed", "isa:Class", "isa:Compound", "isa:Interface", "isa:List", "isa:Map", "isa:Record", "isa:Type"]),
+       ("_check_array_element_type", ["in:BASIC_GIR_TYPES", "in:POINTER_TYPES", "isa:Bitfield", "isa:Enum"]),
+       ("_check_instance_parameter", ["destroy", "free", "has:ANN_NULLABLE"]),
+       ("_get_transfer_default_param", []),
+       ("_is_pointer_type", ["*", "in:BASIC_TYPES", "isa:Return", "isa:Type"]),
+       ("_pass3_callable_callbacks", ["GLib.DestroyNotify", "Gio.AsyncReadyCallback", "attr:Gio.AsyncReadyCallback", "data", "isa:Callback", "none:argname", "none:closure_name"]),
+       ("_pass3_callable_references", ["GError**", "isa:Array"]),
+       ("_pass3_callable_throws", ["GError**"]),
+       ("_resolve_toplevel", ["none:ctype", "none:gtype_name"])]
     ∧ Gen.ParamAnn.writerLiterals =
       [("_write_generic", ["attr:column", "attr:filename", "attr:line", "attr:name", "attr:value", "attr:xml:space"]),
-       ("_write_parameter", ["attr:allow-none", "attr:caller-allocates", "attr:closure", "attr:destroy",
-          "attr:direction", "attr:name", "attr:nullable", "attr:optional", "attr:scope", "attr:skip",
-          "attr:transfer-ownership", "in"]),
+       ("_write_parameter", ["attr:allow-none", "attr:caller-allocates", "attr:closure", "attr:destroy", "attr:direction", "attr:name", "attr:nullable", "attr:optional", "attr:scope", "attr:skip", "attr:transfer-ownership", "in", "none:argname", "none:closure_name", "none:destroy_name", "none:direction"]),
        ("_write_return_type", ["attr:nullable", "attr:skip", "attr:transfer-ownership"]),
-       ("_write_type", ["attr:c:type", "attr:fixed-size", "attr:foreign", "attr:length", "attr:name", "attr:zero-terminated"])]
+       ("_write_type", ["attr:c:type", "attr:fixed-size", "attr:foreign", "attr:length", "attr:name", "attr:zero-terminated", "isa:Array", "isa:Callable", "isa:Compound", "isa:List", "isa:Map", "isa:Type", "isa:Varargs", "none:length_param_name", "none:size"])]
     ∧ Gen.ParamAnn.transferOptions = ["container", "floating", "full", "none"]
     ∧ Gen.ParamAnn.scopeOptions = ["async", "call", "notified", "forever"]
     ∧ (Gen.ParamAnn.dirIn, Gen.ParamAnn.dirOut, Gen.ParamAnn.dirInout) = ("in", "out", "inout")
@@ -92,6 +97,10 @@ theorem C01_valid_reflected (env : Env) (f : Bool) (all : List Node) (part : Str
     simp only [Present] at hpres
     have := nullPure_not part n a (dirStep n a t1.1).dir cs.1 p hpres
     exact written_lacks_nullable hw (Or.inl (by simp [hnl, this.1]))
+  | notOptional =>
+    simp only [Present] at hpres
+    have := nullPure_notOptional part n a (dirStep n a t1.1).dir cs.1 p hpres
+    exact written_lacks_optional hw (by simp [hnl, this])
   | nullable =>
     simp only [Present] at hpres
     simp only [Valid, siteOf] at hv
@@ -100,7 +109,7 @@ theorem C01_valid_reflected (env : Env) (f : Bool) (all : List Node) (part : Str
     have hp : p = true := by
       have := hpp hneed; rw [hp2] at this; injection this with this; exact this.symm
     subst hp
-    cases hnot : a.not_.isSome with
+    cases hnot : notNullableAnn a with
     | true =>
       have hexp : Expected .nullable (siteOf n a t1.1 p1 true) = .lacks (G "nullable") := by
         simp [Expected, siteOf, hnot]
@@ -111,26 +120,44 @@ theorem C01_valid_reflected (env : Env) (f : Bool) (all : List Node) (part : Str
       have hexp : Expected .nullable (siteOf n a t1.1 p1 true) = .has (G "nullable") (G "1") := by
         simp [Expected, siteOf, hnot]
       rw [hexp]
-      have hn : a.not_ = none := by cases hh : a.not_ <;> simp_all
-      have := nullPure_nullable_valid part n a (dirStep n a t1.1).dir cs.1 hpres hn
+      have := nullPure_nullable_valid part n a (dirStep n a t1.1).dir cs.1 hpres hnot
       exact written_has_nullable hw (by simp [hnl, this.1]) (by simp [hnl, this.2])
   | optional =>
     simp only [Present] at hpres
     simp only [Valid, siteOf, hr, Bool.not_false, Bool.true_and] at hv
     have hd : isOutish (dirStep n a t1.1).dir = true := by simpa [isOutish] using hv
-    have := nullPure_optional_valid part n a (dirStep n a t1.1).dir cs.1 p hpres hr hd
-    exact written_has_optional hw (by simp [hnl, this])
+    cases hno : notOptionalAnn a with
+    | true =>
+      have hexp : Expected .optional (siteOf n a t1.1 p1 p2) = .lacks (G "optional") := by
+        simp [Expected, siteOf, hno]
+      rw [hexp]
+      have := nullPure_notOptional part n a (dirStep n a t1.1).dir cs.1 p hno
+      exact written_lacks_optional hw (by simp [hnl, this])
+    | false =>
+      have hexp : Expected .optional (siteOf n a t1.1 p1 p2) = .has (G "optional") (G "1") := by
+        simp [Expected, siteOf, hno]
+      rw [hexp]
+      have := nullPure_optional_valid part n a (dirStep n a t1.1).dir cs.1 p hpres hr hd hno
+      exact written_has_optional hw (by simp [hnl, this])
   | allowNone =>
     simp only [Present] at hpres
     cases hd0 : ((dirStep n a t1.1).dir == Dir.out) with
     | true =>
-      have hexp : Expected .allowNone (siteOf n a t1.1 p1 p2) = .has (G "optional") (G "1") := by
-        simp [Expected, siteOf, hd0, hr]
-      rw [hexp]
-      have hd' : (dirStep n a t1.1).dir = .out := by simpa using hd0
-      have := nullPure_allowNone_out part n a cs.1 p hpres hr
-      rw [hd'] at hnl
-      exact written_has_optional hw (by simp [hnl, this])
+      cases hno : notOptionalAnn a with
+      | true =>
+        have hexp : Expected .allowNone (siteOf n a t1.1 p1 p2) = .lacks (G "optional") := by
+          simp [Expected, siteOf, hd0, hr, hno]
+        rw [hexp]
+        have := nullPure_notOptional part n a (dirStep n a t1.1).dir cs.1 p hno
+        exact written_lacks_optional hw (by simp [hnl, this])
+      | false =>
+        have hexp : Expected .allowNone (siteOf n a t1.1 p1 p2) = .has (G "optional") (G "1") := by
+          simp [Expected, siteOf, hd0, hr, hno]
+        rw [hexp]
+        have hd' : (dirStep n a t1.1).dir = .out := by simpa using hd0
+        have := nullPure_allowNone_out part n a cs.1 p hpres hr hno
+        rw [hd'] at hnl
+        exact written_has_optional hw (by simp [hnl, this])
     | false =>
       simp only [Valid, siteOf, hd0, hr, Bool.false_and, Bool.false_or] at hv
       subst hv
@@ -140,7 +167,7 @@ theorem C01_valid_reflected (env : Env) (f : Bool) (all : List Node) (part : Str
       have hp : p = true := by
         have := hpp hneed; rw [hp2] at this; injection this with this; exact this.symm
       subst hp
-      cases hnot : a.not_.isSome with
+      cases hnot : notNullableAnn a with
       | true =>
         have hexp : Expected .allowNone (siteOf n a t1.1 p1 true) = .lacks (G "nullable") := by
           simp [Expected, siteOf, hd0, hnot]
@@ -151,9 +178,8 @@ theorem C01_valid_reflected (env : Env) (f : Bool) (all : List Node) (part : Str
         have hexp : Expected .allowNone (siteOf n a t1.1 p1 true) = .has (G "nullable") (G "1") := by
           simp [Expected, siteOf, hd0, hnot]
         rw [hexp]
-        have hn : a.not_ = none := by cases hh : a.not_ <;> simp_all
-        have h1 := nullPure_allowNone_pointer part n a (dirStep n a t1.1).dir cs.1 hpres hdd hn
-        have h2 := nullPure_true_notNullable part n a (dirStep n a t1.1).dir cs.1 hn
+        have h1 := nullPure_allowNone_pointer part n a (dirStep n a t1.1).dir cs.1 hpres hdd hnot
+        have h2 := nullPure_true_notNullable part n a (dirStep n a t1.1).dir cs.1 hnot
           (Or.inr ⟨hpres, hdd⟩)
         exact written_has_nullable hw (by simp [hnl, h1]) (by simp [hnl, h2, hfresh])
   | dirIn =>
@@ -161,17 +187,17 @@ theorem C01_valid_reflected (env : Env) (f : Bool) (all : List Node) (part : Str
     simp only [Valid, siteOf, hr, Bool.not_false, Bool.true_and, Bool.and_eq_true, Bool.not_eq_true'] at hv
     have ho : a.out = none := by cases hh : a.out <;> simp_all
     have hi : a.inout = none := by cases hh : a.inout <;> simp_all
-    have hd := dirStep_dir n a t1.1 .in_ (annotatedDir_in a hi ho hpres)
+    have hd := dirStep_dir n a t1.1 .in_ hr (annotatedDir_in a hi ho hpres)
     exact written_lacks_direction hw (Or.inl (by simp [hd]))
   | dirOut =>
     simp only [Present] at hpres
     simp only [Valid, siteOf, hr, Bool.not_false, Bool.true_and, Bool.not_eq_true'] at hv
     have hi : a.inout = none := by cases hh : a.inout <;> simp_all
-    have hd := dirStep_dir n a t1.1 .out (annotatedDir_out a hi hpres)
+    have hd := dirStep_dir n a t1.1 .out hr (annotatedDir_out a hi hpres)
     exact (written_has_direction_out hw (by simp [hd])).1
   | dirInout =>
     simp only [Present] at hpres
-    have hd := dirStep_dir n a t1.1 .inout (annotatedDir_inout a hpres)
+    have hd := dirStep_dir n a t1.1 .inout hr (annotatedDir_inout a hpres)
     exact (written_has_direction_inout hw (by simp [hd])).1
   | transfer m =>
     simp only [Present] at hpres
@@ -537,13 +563,6 @@ def objPtr : Ty := .leaf none (some (G "Foo.Obj")) .klass { ctype := some (G "Fo
 def anyTy : Ty := .leaf (some (G "gpointer")) none .none { ctype := some (G "gpointer") }
 def cbTy : Ty := .leaf none (some (G "Foo.Cb")) (.callback (G "Foo.Cb")) { ctype := some (G "FooCb") }
 
-/-- `(not optional)` is treated like `(not nullable)`: it clears nullable, even an explicit `(nullable)`;
-    and it does not take `optional` away from an out parameter -/
-theorem C01_not_optional_counterexample :
-    (nullPure [] {} { not_ := some [G "optional"], nullable := some [] } .in_ objPtr true).nullable = false
-    ∧ (nullPure [] {} { not_ := some [G "optional"], optional := some [] } .out objPtr true).optional = true := by
-  decide
-
 /-- the transformer's pointer test accepts a by-value enum (so `(nullable)`, `(transfer full)` on it
     are written without a warning) and rejects a pointer to an alias of a basic type -/
 theorem C01_pointer_test_counterexample :
@@ -576,29 +595,88 @@ theorem C01_scope_overridden_counterexample :
     ∧ ((pass3WellKnown [{ name := G "d", ty := dnTy, scope := some (G "call") }]).map (·.scope)) = [some (G "async")] := by
   decide
 
-/-- `@data: (scope async)` then `@items: (destroy data)`: the annotation step of `items` sets the scope
-    of its destroy target unconditionally, so the explicit scope of `data` is lost — and only in this
-    parameter order: with `items` first, the step of `data` runs last and `async` stays -/
-theorem C01_scope_overridden_by_destroy_reference_counterexample :
+/-- **References that survive pass 3 have an index** (fix af359fc): after `_pass3_callable_references`
+    every `closure` / `destroy` name left on a parameter or on the instance parameter is the name of an
+    entry of `parameters` — so `C01_indices` gives it an index and the writer does not raise. -/
+theorem C01_references_have_index (c : Callable) (p : Node)
+    (hp : p ∈ (pass3References c).params ∨ (pass3References c).inst = some p) (nm : Str)
+    (h : p.closure = some nm ∨ p.destroy = some nm) :
+    ∃ q ∈ (pass3References c).params, q.name = nm := by
+  have key : ∀ o : Option Str, chkRef (refNames c) o = some nm → (refNames c).contains nm = true := by
+    intro o ho
+    cases o with
+    | none => simp [chkRef] at ho
+    | some x =>
+      simp only [chkRef] at ho
+      split at ho
+      · rename_i hx; injection ho with ho; subst ho; exact hx
+      · cases ho
+  have hnames : (refNames c).contains nm = true → ∃ q ∈ (pass3References c).params, q.name = nm := by
+    intro hc
+    have hmem : nm ∈ c.params.map (fun p => p.name) := by
+      unfold refNames at hc
+      split at hc
+      · split at hc
+        · exact List.dropLast_subset _ (by simpa using hc)
+        · simpa using hc
+      · simpa using hc
+    obtain ⟨q, hq, hqn⟩ := List.mem_map.mp hmem
+    exact ⟨fixRefs (refNames c) q, List.mem_map_of_mem hq, by simpa [fixRefs] using hqn⟩
+  have hfix : ∀ p0 : Node, p = fixRefs (refNames c) p0 → ∃ q ∈ (pass3References c).params, q.name = nm := by
+    intro p0 hp0
+    subst hp0
+    rcases h with h | h
+    · exact hnames (key _ (by simpa [fixRefs] using h))
+    · exact hnames (key _ (by simpa [fixRefs] using h))
+  rcases hp with hp | hp
+  · obtain ⟨p0, _, hp0⟩ := List.mem_map.mp (by simpa [pass3References] using hp)
+    exact hfix p0 hp0.symm
+  · cases hi : c.inst with
+    | none => simp [pass3References, hi] at hp
+    | some p0 =>
+      have : fixRefs (refNames c) p0 = p := by simpa [pass3References, hi] using hp
+      exact hfix p0 this.symm
+
+/-! ### non-vacuity: concrete instances of the hypotheses and conclusions -/
+
+/-- `(closure self)` on a method: pass 3 drops the reference, the writer succeeds -/
+example :
+    let cb : Node := { name := G "cb", ty := cbTy, closure := some (G "self") }
+    let c : Callable := { kind := .function, inst := some { name := G "self", ty := objPtr }, params := [cb] }
+    (((pass3References c).params.map (·.closure)) = [none]) ∧
+    ((pass3References c).params.all fun p => (paramAttrs (pass3References c) p).toOption.isSome) = true := by decide
+
+/-- `(closure error)` naming the trailing `GError**`: dropped as well; `(closure data)` stays -/
+example :
+    let errTy : Ty := .leaf none (some (G "GLib.Error")) .record { ctype := some (G "GError**") }
+    let c : Callable := { kind := .function, params := [{ name := G "cb", ty := cbTy, closure := some (G "error") },
+      { name := G "cb2", ty := cbTy, closure := some (G "data") }, { name := G "data", ty := anyTy }, { name := G "error", ty := errTy }] }
+    ((pass3References c).params.map (·.closure)) = [none, some (G "data"), none, none] := by decide
+
+/-- `(nullable) (not optional)` keeps nullable; `(optional) (not optional)` on an out parameter is not optional (fix faf246d) -/
+example :
+    (nullPure [] {} { not_ := some [G "optional"], nullable := some [] } .in_ objPtr true).nullable = true
+    ∧ (nullPure [] {} { not_ := some [G "optional"], optional := some [] } .out objPtr true).optional = false
+    ∧ (nullPure [] {} { not_ := some [G "nullable"], nullable := some [] } .in_ objPtr true).nullable = false := by
+  decide
+
+/-- `@data: (scope async)` and `@items: (destroy data)` in either parameter order: the explicit scope of
+    `data` survives (fix 05dfe62) -/
+example :
     (let c : Callable := { kind := .function, params := [{ name := G "data", ty := cbTy }, { name := G "items", ty := cbTy }] }
      ((callbackStep c 0 (G "data") (some { scope := some [G "async"] })).toOption.bind fun r =>
         (callbackStep r.1 1 (G "items") (some { destroy := some [G "data"] })).toOption.map
-          fun r' => r'.1.params.map (·.scope)) = some [some (G "notified"), some (G "notified")])
+          fun r' => r'.1.params.map (·.scope)) = some [some (G "async"), some (G "notified")])
     ∧ (let c : Callable := { kind := .function, params := [{ name := G "items", ty := cbTy }, { name := G "data", ty := cbTy }] }
      ((callbackStep c 0 (G "items") (some { destroy := some [G "data"] })).toOption.bind fun r =>
         (callbackStep r.1 1 (G "data") (some { scope := some [G "async"] })).toOption.map
           fun r' => r'.1.params.map (·.scope)) = some [some (G "notified"), some (G "async")]) := by
   decide
 
-/-- `(closure self)` on a method: the writer has no index for the instance parameter and raises -/
-theorem C01_instance_reference_counterexample :
-    ∃ e, paramAttrs { kind := .function, inst := some { name := G "self", ty := objPtr },
-                      params := [{ name := G "cb", ty := cbTy, closure := some (G "self") }] }
-                    { name := G "cb", ty := cbTy, closure := some (G "self") } = .error e := by
-  rw [(C01_indices _ _).2]
-  exact ⟨G "self", Or.inl rfl, by decide⟩
-
-/-! ### non-vacuity: concrete instances of the hypotheses and conclusions -/
+/-- `Returns: (in)`: the direction step leaves a return value alone -/
+example : (dirStep { isRet := true, dir := .out, transfer := some (G "full") } { in_ := some [] } objPtr).dir = .out
+    ∧ (dirStep { isRet := true, dir := .out, transfer := some (G "full") } { in_ := some [] } objPtr).tr = some (G "full") := by
+  decide
 
 /-- `@p: (nullable) (transfer full) (out)` on `FooObj *p` -/
 def exAnns : Anns := { nullable := some [], transfer := some [G "full"], out := some [] }
